@@ -780,7 +780,11 @@ pub fn wide_cli_part(name: &'static str, cases: u32) -> Box<dyn DynPart> {
         name,
         cases,
         20,
-        || (prop_oneof![crate::props::sem::sem_case_wide_chains(58, 90), crate::props::sem::sem_case_wide_core(60, 135, 4)], 0u8..4).prop_map(|(sem, heu)| WideCli { sem, heu }).boxed(),
+        || (prop_oneof![
+            // half of the cases: one condition mentions 64 and more statements (2^64 and more paths)
+            2 => crate::props::sem::sem_case_wide_chains(66, 90).prop_filter("a condition over 64+ statements", |c| c.adf.acs.iter().any(|f| f.support().len() >= 64)),
+            1 => crate::props::sem::sem_case_wide_chains(58, 90),
+            1 => crate::props::sem::sem_case_wide_core(60, 135, 4)], prop_oneof![1 => Just(0u8), 2 => Just(1u8), 2 => Just(2u8), 1 => Just(3u8)]).prop_map(|(sem, heu)| WideCli { sem, heu }).boxed(),
         wide_cli_check,
     )
 }
